@@ -182,8 +182,8 @@ int main(int argc,char **argv){
    if (strcmp(mc_arg_s("--build",PARTNAME),PARTNAME)){ fprintf(stderr,"C03: part/variant mismatch (built as %s)\n",PARTNAME); return 2; }
    MC.cpu_limit_s=(int)mc_arg("--itemcpu",600);
    /* grid bounds (see streams.h items_build) */
-   G.cfg_rates=(int)mc_arg("--cfg-rates",MC.tier?3:1); G.cfg_sigs=(int)mc_arg("--cfg-sigs",MC.tier?6:1); G.cfg_ms=(int)mc_arg("--cfg-ms",MC.tier?1000:360);
-   G.trans_scheds=(int)mc_arg("--trans-scheds",MC.tier?5:1); G.trans_sigs=(int)mc_arg("--trans-sigs",MC.tier?2:1); G.trans_ms=(int)mc_arg("--trans-ms",MC.tier?400:240);
+   G.cfg_rates=(int)mc_arg("--cfg-rates",MC.tier?3:1); G.cfg_sigs=(int)mc_arg("--cfg-sigs",MC.tier?6:2); G.cfg_ms=(int)mc_arg("--cfg-ms",MC.tier?1000:360);
+   G.trans_scheds=(int)mc_arg("--trans-scheds",MC.tier?5:2); G.trans_sigs=(int)mc_arg("--trans-sigs",MC.tier?2:1); G.trans_ms=(int)mc_arg("--trans-ms",MC.tier?400:240);
    G.ref_rates=(int)mc_arg("--ref-rates",MC.tier?3:1); G.ref_ms=(int)mc_arg("--ref-ms",MC.tier?720:360);
    G.feat_sigs=(int)mc_arg("--feat-sigs",MC.tier?3:1); G.feat_ms=(int)mc_arg("--feat-ms",MC.tier?1800:1080); G.silkbw_ms=(int)mc_arg("--silkbw-ms",4300);
    opt_fam=(int)mc_arg("--fam",-1); opt_rfcproc=(int)mc_arg("--rfcproc",1); opt_apis=(int)mc_arg("--apis",7)|1;   /* the float API is always run: the full-scale guard needs it */
